@@ -78,7 +78,7 @@ void oracle_segment(Plan const& p, RunCtl const& ctl, std::vector<u64> const& se
 void oracle_c02(Plan const& p, RunCtl const& ctl, std::vector<u64> const& seg_calls, RunOut const& out,
     ChkptView const& v, Report& rep);
 void oracle_c07_invariants(Plan const& p, RunOut const& out, ChkptView const& v, Report& rep);
-void oracle_c07_share(Plan const& p, ChkptView const& v, Report& rep);
+void oracle_c07_share(Plan const& p, ChkptView const& v, Report& rep, bool used_grids = false);
 void oracle_c08(Plan const& p, ChkptView const& v, Report& rep, u64 from = 0);
 void oracle_c09_invariant(Plan const& p, RunOut const& out, ChkptView const& v, Report& rep);
 void oracle_c10(Plan const& p, std::vector<u64> const& seg_calls, RunOut const& out, IWorld const& world,
